@@ -33,6 +33,10 @@ type Renderer struct {
 	kidsOf   map[itemKey][]*Item
 	usedVars map[string]string
 	alts     map[*Item]int
+	nmItem   *Item  // near-miss: the extra instance
+	nmPos    string // "before" | "after" the instance it repeats
+	nmDone   bool
+	kidsOver map[*Item][]*Item // children of synthetic items
 	Emitted  int
 	cmt      struct{ pre, between, inblock, eol, trail bool }
 	preN     int
@@ -90,8 +94,34 @@ func Render(t *Table, p Program, seed int64, variant int) (text string, emitted 
 		}
 		rd.kidsOf[pk] = append(rd.kidsOf[pk], it)
 	}
+	if len(p.Nm) > 1 {
+		return "", 0, fmt.Errorf("more than one near-miss instance")
+	}
+	rd.kidsOver = map[*Item][]*Item{}
+	if len(p.Nm) == 1 {
+		x := p.Nm[0]
+		if t.ByID[x.F] == nil {
+			return "", 0, fmt.Errorf("unknown near-miss feature %q", x.F)
+		}
+		rd.nmItem = &Item{R: x.R, F: x.F, I: x.I, Sp: x.Sp, V: x.V, V2: x.V2, N: x.N}
+		rd.nmPos = x.Pos
+		rd.kidsOver[rd.nmItem] = []*Item{}
+		if x.Kf != "-" && x.Kf != "" {
+			if t.ByID[x.Kf] == nil || t.ByID[x.Kf].Par != x.F {
+				return "", 0, fmt.Errorf("near-miss child %q is no child of %q", x.Kf, x.F)
+			}
+			ki := 1
+			if t.IdxRoot(x.Kf) != "" {
+				ki = x.I
+			}
+			rd.kidsOver[rd.nmItem] = []*Item{{R: x.R, F: x.Kf, I: ki, Sp: "-", V: x.Kv, V2: "-", N: 1}}
+		}
+	}
 	rd.pickStyle(variant)
 	units := rd.topUnits()
+	if rd.nmItem != nil && !rd.nmDone {
+		return "", 0, fmt.Errorf("near-miss instance %v was not placed", p.Nm[0])
+	}
 	var b strings.Builder
 	rd.printFile(&b, units)
 	text = b.String()
@@ -193,8 +223,12 @@ func (rd *Renderer) valKind(it *Item, pos int, vc, kind string) string {
 	alt, ok := rd.alts[it]
 	if !ok {
 		// placeholders resolve to the primary value of their position: keep the whole directive on it
-		if rd.rng.Intn(3) == 0 && !resolved(it.V) && !resolved(it.V2) {
-			alt = rd.rng.Intn(4)
+		if !resolved(it.V) && !resolved(it.V2) {
+			if kind == "bool" {
+				alt = rd.rng.Intn(6) // on / off / true / false / 1 / 0 alike: dropping a default-valued line would not show
+			} else if rd.rng.Intn(3) == 0 {
+				alt = rd.rng.Intn(4)
+			}
 		}
 		rd.alts[it] = alt
 	}
@@ -216,13 +250,84 @@ func cat(a []string, b ...string) []string {
 // ---------------------------------------------------------------- items -> nodes
 
 func (rd *Renderer) children(it *Item) []*Item {
+	if ov, ok := rd.kidsOver[it]; ok {
+		return ov
+	}
 	return rd.kidsOf[itemKey{it.R, it.F, it.I}]
+}
+
+// nodesNM renders item it and, when the near-miss instance repeats its slot, that instance next to it
+// (ordered before / after it by the `after` links, which shuffling respects).
+func (rd *Renderer) nodesNM(it *Item) []*node {
+	nodes := rd.itemNodes(it)
+	x := rd.nmItem
+	if x == nil || rd.nmDone || it == x || x.R != it.R || x.F != it.F || x.I != it.I {
+		return nodes
+	}
+	rd.nmDone = true
+	extra := rd.itemNodes(x)
+	if len(nodes) > 0 && len(extra) > 0 {
+		if rd.nmPos == "after" {
+			for _, e := range extra {
+				if e.after == nil {
+					e.after = nodes[len(nodes)-1]
+				}
+			}
+		} else {
+			for _, n := range nodes {
+				if n.after == nil {
+					n.after = extra[len(extra)-1]
+				}
+			}
+		}
+	}
+	if rd.nmPos == "after" {
+		return append(nodes, extra...)
+	}
+	return append(extra, nodes...)
+}
+
+// orphanNM renders the near-miss instance inside its parent (r, par, pi) when the program has no item in
+// its own slot (it is the exclusive alternative of a sibling).
+func (rd *Renderer) orphanNM(r int, par string, pi int, sibs []*node) []*node {
+	x := rd.nmItem
+	if x == nil || rd.nmDone || x.R != r || rd.T.ByID[x.F].Par != par {
+		return nil
+	}
+	xi := 1
+	if par != "top" && par != "route" && rd.T.IdxRoot(par) != "" {
+		xi = x.I
+	}
+	if xi != pi || rd.items[itemKey{x.R, x.F, x.I}] != nil {
+		return nil
+	}
+	rd.nmDone = true
+	extra := rd.itemNodes(x)
+	if len(sibs) > 0 && len(extra) > 0 {
+		if rd.nmPos == "after" {
+			for _, e := range extra {
+				if e.after == nil {
+					e.after = sibs[len(sibs)-1]
+				}
+			}
+		} else {
+			for _, n := range sibs {
+				if n.after == nil {
+					n.after = extra[len(extra)-1]
+				}
+			}
+		}
+	}
+	return extra
 }
 
 func (rd *Renderer) kidNodes(it *Item) []*node {
 	var out []*node
 	for _, c := range rd.children(it) {
-		out = append(out, rd.itemNodes(c)...)
+		out = append(out, rd.nodesNM(c)...)
+	}
+	if _, synthetic := rd.kidsOver[it]; !synthetic {
+		out = append(out, rd.orphanNM(it.R, it.F, it.I, out)...)
 	}
 	return out
 }
@@ -242,6 +347,11 @@ func (rd *Renderer) itemNodes(it *Item) []*node {
 			rd.Emitted++
 			name := Keyword(c.F)[0]
 			out = append(out, &node{toks: []string{"publish." + name, rd.val(c, 0, c.V)}})
+			if x := rd.nmItem; x != nil && !rd.nmDone && x != c && x.R == c.R && x.F == c.F { // the dotted directive twice
+				rd.nmDone = true
+				rd.Emitted++
+				out = append(out, &node{toks: []string{"publish." + name, rd.val(x, 0, x.V)}})
+			}
 		}
 		return out
 	case it.F == "r.publish_mix":
@@ -357,8 +467,11 @@ func (rd *Renderer) hmacNodes(it *Item) []*node {
 				entries = append(entries, entry{ref: c.F == "r.auth_hmac.secret_ref", tok: rd.val(c, k, vc), src: c})
 			}
 		default:
-			opts = append(opts, rd.itemNodes(c)...)
+			opts = append(opts, rd.nodesNM(c)...)
 		}
+	}
+	if _, synthetic := rd.kidsOver[it]; !synthetic {
+		opts = append(opts, rd.orphanNM(it.R, it.F, it.I, opts)...)
 	}
 	inline := func(e entry) *node {
 		if e.ref {
@@ -441,6 +554,9 @@ func (rd *Renderer) routePath(rt Route) string {
 		return `"` + base + `#frag"`
 	case "qesc":
 		return `"` + base + `\"q\\"`
+	case "qctrl":
+		sp := []string{"\u00a0", "\u200b", "\ufeff", "\u2028", "\u00ad", "\x1b", "\a", "\x7f"}
+		return `"` + base + sp[rd.rng.Intn(len(sp))] + "z" + sp[rd.rng.Intn(len(sp))] + `"`
 	case "qbad":
 		if rd.rng.Intn(3) == 0 {
 			return `""`
@@ -454,8 +570,9 @@ func (rd *Renderer) routeNode(k int) *node {
 	rt := rd.P.Routes[k]
 	var kids []*node
 	for _, it := range rd.kidsOf[itemKey{k + 1, "route", 1}] {
-		kids = append(kids, rd.itemNodes(it)...)
+		kids = append(kids, rd.nodesNM(it)...)
 	}
+	kids = append(kids, rd.orphanNM(k+1, "route", 1, kids)...)
 	return &node{toks: []string{rd.routePath(rt)}, block: true, kids: kids, valLast: true}
 }
 
@@ -506,10 +623,14 @@ func (rd *Renderer) topUnits() []*node {
 			blocks = append(blocks, nil)
 			continue
 		}
-		for _, n := range rd.itemNodes(it) {
+		for _, n := range rd.nodesNM(it) {
 			n.top = it.F
 			blocks = append(blocks, n)
 		}
+	}
+	for _, n := range rd.orphanNM(0, "top", 1, nil) {
+		n.top = "nm"
+		blocks = append(blocks, n)
 	}
 	if varsItem != nil {
 		rd.Emitted++
@@ -528,6 +649,20 @@ func (rd *Renderer) topUnits() []*node {
 			vn.kids = append(vn.kids, &node{toks: []string{name, v}})
 		}
 		blocks[varsAt] = vn
+		if x := rd.nmItem; x != nil && !rd.nmDone && x.F == "vars" { // a second vars block
+			rd.nmDone = true
+			extra := rd.itemNodes(x)
+			for _, e := range extra {
+				e.top = "vars"
+				if rd.nmPos == "after" {
+					e.after = vn
+				} else {
+					vn.after = e
+				}
+			}
+			rest := append([]*node{}, blocks[varsAt+1:]...)
+			blocks = append(append(blocks[:varsAt+1], extra...), rest...)
+		}
 	}
 	var units []*node
 	switch rd.P.Order {
@@ -568,6 +703,7 @@ func (rd *Renderer) topUnits() []*node {
 	default:
 		panic("unknown order " + rd.P.Order)
 	}
+	rd.fixOrder(units)
 	return units
 }
 
@@ -578,14 +714,19 @@ func (rd *Renderer) shuffle(n *node) {
 		return
 	}
 	rd.rng.Shuffle(len(n.kids), func(a, b int) { n.kids[a], n.kids[b] = n.kids[b], n.kids[a] })
-	for pass := 0; pass < len(n.kids); pass++ {
-		for k, c := range n.kids {
+	rd.fixOrder(n.kids)
+}
+
+// fixOrder re-establishes the `after` links in list.
+func (rd *Renderer) fixOrder(list []*node) {
+	for pass := 0; pass < len(list); pass++ {
+		for k, c := range list {
 			if c.after == nil {
 				continue
 			}
-			for j := k + 1; j < len(n.kids); j++ {
-				if n.kids[j] == c.after {
-					n.kids[k], n.kids[j] = n.kids[j], n.kids[k]
+			for j := k + 1; j < len(list); j++ {
+				if list[j] == c.after {
+					list[k], list[j] = list[j], list[k]
 				}
 			}
 		}
